@@ -21,6 +21,11 @@ from props.C04 import (TOL, PHI0, C0, H_KEYS, E_KEYS, RT, hexes, cflat, theory_c
                        point_data, points_tokens, par_tokens, pw_tokens, map_exc, j2x_scale, compare, sdiv)
 
 
+# the x-space singlet and gluon are built from the singlet and gluon moments only (the harness's own
+# matrix: the code's frot_j2x / frot_pdf attributes are part of what is being checked)
+FROT_X = [[1, 0, 0, 0], [0, 1, 0, 0], [0, 0, 0, 0]]
+
+
 def run(rep):
     import numpy as np
     import gepard as g
@@ -296,7 +301,7 @@ def run(rep):
             if not slow:
                 f2 = th.DISF2(pt0)
                 hx = th.Hx(pt0)
-                gpd0 = np.einsum('fa,ja->jf', th.frot_j2x, th.H(0, 0))
+                gpd0 = np.einsum('fa,ja->jf', FROT_X, th.H(0, 0))
                 s0 = j2x_scale(th, xi, 0, Q2, None, gpd0, None)
                 tf = th.tff(xi, t, Q2)
                 hm = np.einsum('fa,ja->jf', th.frot_rho0_4, th.H(xi, t))
